@@ -147,6 +147,14 @@ def run(ctx):
             fs = facts_at(states, cs[0][0])
             ok = bool(fs) and all(in_range(f_) and holds(f_, 'procedure', '!=', 0) and (holds(f_, 'program', '==', 100000) if want_prog else holds(f_, 'program', '!=', 100000)) for f_ in fs)
         rep.check(r2, ok, callee.split('::')[-1], 'called only with version in range, procedure != 0 and program %s 100000' % ('==' if want_prog else '!='), br.loc(cs[0][0]) if cs else '')
+    # ... and what the program-specific builder returns is appended to the reply (on that path the reply is header ++ body)
+    rets_ = br.return_blocks()
+    for callee in (R + 'build_repl_portmap', R + 'build_repl_unknownprog'):
+        for cb_, _t in br.calls('^' + re.escape(callee) + '$'):
+            apps = [b_ for b_, t_ in br.calls(r'Vec::<[^>]*>::(append|extend_from_slice)$|Extend<[^>]*>>::extend$|Extend::extend$') if calls_in(br.argv(b_, 1), '^' + re.escape(callee) + '$')
+                    and b_ in br.reachable(cb_)]
+            okb = bool(apps) and not any(x in br.reachable(cb_, removed_blocks=apps) for x in rets_)
+            rep.check(r2, okb, callee.split('::')[-1] + ':appended', 'the body built by %s is appended to the reply on every path from the call to the return: %s' % (callee.split('::')[-1], okb), br.loc(cb_))
     uk = F.fn(R + 'build_repl_unknownprog')
     rv = [arr_consts(a) or [const_val(x) for x in peel(a, unwraps=False)[2]] if False else None for a in []]
     val = uk.ret_value(uk.return_blocks()[0])
@@ -164,13 +172,20 @@ def run(ctx):
     for it in pitems:
         c = arr_consts(it['value'])
         fs = facts_at(pstates, it['block'])
-        if c == [0, 0, 0, 5]:
-            ok = bool(fs) and all(holds(f_, 'procedure', '!=', 3) and holds(f_, 'procedure', '!=', 4) for f_ in fs)
-            rep.check(r2, ok, 'PROC_UNAVAIL', 'emitted only for procedures other than 3 and 4', it['loc'])
+        if c is not None and len(c) == 4 and c[:3] == [0, 0, 0] and c[3] not in (0, 1) and not it['in_loop'] and fs and \
+                all(holds(f_, 'procedure', '!=', 3) and holds(f_, 'procedure', '!=', 4) for f_ in fs):
+            # the accept state of the arm for every other procedure: PROC_UNAVAIL is 3 (RFC 5531; 5 would be SYSTEM_ERR)
+            rep.check(r2, c == [0, 0, 0, 3], 'PROC_UNAVAIL', 'other procedures are answered with accept state %d (required: 3, PROC_UNAVAIL)' % c[3], it['loc'])
         elif c == [0, 0, 0, 0]:
             ok = bool(fs) and all(holds(f_, 'procedure', '==', 3) or holds(f_, 'procedure', '==', 4) for f_ in fs)
             rep.check(r2, ok, 'portmap-success@proc%s' % ('3' if fs and holds(fs[0], 'procedure', '==', 3) else '4'), 'accept state 0 only for procedure 3 / 4', it['loc'])
 
+    # the accept-state word comes first on each procedure arm: SUCCESS (0) for GETPORT/GETADDR and DUMP
+    for proc in (3, 4):
+        arm_items = [it for it in pitems if facts_at(pstates, it['block']) and all(holds(f_, 'procedure', '==', proc) for f_ in facts_at(pstates, it['block']))]
+        first = arm_items[0] if arm_items else None
+        rep.check(r2, first is not None and arr_consts(first['value']) == [0, 0, 0, 0], 'portmap-accept-word@proc%d' % proc,
+                  'the first word appended for procedure %d is %s (required: accept state 0, SUCCESS)' % (proc, arr_consts(first['value']) if first else None), first['loc'] if first else '')
     r5 = rep.rule('C16-R5', 'advertised endpoint = the endpoint the client contacted: port <- client_info.port.dst, address <- client_info.ip.dst, netid tcp/tcp6 by the address variant; version 2 answers with a port number, versions 3/4 with a universal address "addr.hi.lo"', floor=5)
     for bi, t in pm.calls(r'rpc::push_u32$'):
         v = pm.argv(bi, 1)
@@ -470,6 +485,14 @@ def run(ctx):
     okz = bool(sw_) and bool(z_) and not rs.must_pass(z_, sw_) and all(not any(x in rs.reachable(s__, removed_blocks=sw_) for x in rs.return_blocks()) for (_, s__) in z_) and \
         bool(dec_) and all(not any(zb in rs.reachable(0, removed_blocks=dec_) for (zb, _) in z_) for _ in [0])
     rep.check(r6, okz, 'read_string:leaves-at-zero', 'the state advances exactly when data_len, after the decrement, is 0: %s' % okz, rs.loc(sw_[0]) if sw_ else '')
+    # an empty credential body is skipped - and nothing else: the direct `state = VerifFlavor` in the CredsLen arm lies behind
+    # both "the length word is complete (state moved on to Creds)" and "data_len == 0"
+    CREDS = [i_ for i_, v_ in enumerate(F.adts[R + 'RpcState']['variants']) if v_['name'] == 'Creds'][0]
+    vf = [b_ for b_, i_, v_ in field_writes(rp_, 'state') if short(v_).endswith('RpcState::VerifFlavor{}')]
+    g_state = [e_ for e_ in value_edges(rp_, lambda k: 'state' in short(k) and isinstance(peel(k), tuple) and peel(k)[0] in ('discr', 'entry'), CREDS) if len(set(rp_.succ[e_[0]])) <= 3]
+    g_zero = value_edges(rp_, lambda k: 'data_len' in short(k), 0)
+    oksk = len(vf) == 1 and bool(g_state) and bool(g_zero) and not rp_.must_pass(g_state, vf) and not rp_.must_pass(g_zero, vf)
+    rep.check(r6, oksk, 'empty-credentials-skip', 'state <- VerifFlavor (skipping an empty credential body) only when the length word is complete and data_len == 0: %s' % oksk, rp_.loc(vf[0]) if vf else '')
     # read_u32 itself: value * 256 + byte, state advance at the 4th byte
     ru = F.fn(R + 'read_u32')
     rv = ru._through(ru.ret_value(ru.return_blocks()[0]), (ru.return_blocks()[0], 0), 0)
